@@ -1,6 +1,7 @@
 import StreamzVerif.Props.C13
 import StreamzVerif.Props.AsyncWindows
 import StreamzVerif.Props.AsyncZip
+import StreamzVerif.Props.AsyncBuffer
 import StreamzVerif.Props.C01Compose
 /-!
 # C02 — asynchronous timing never changes what lossless pipelines deliver (index module)
